@@ -26,6 +26,8 @@ pub struct OResult {
     pub ratio: Option<f32>,
     pub probes: i64,
     pub swaps: usize,
+    /// the op list as the compaction stage received it (first `begin` step of the cleanup tracer)
+    pub raw: Option<Vec<DiffOp>>,
 }
 
 fn token_strings(xs: &[u32]) -> Vec<String> {
@@ -41,6 +43,15 @@ pub fn exec(c: &OCase, repair: bool) -> OResult {
     }
     similar::verif_hooks::set_swap_repair(repair);
     let _ = similar::verif_hooks::take_swap_count();
+    let raw_cell: std::rc::Rc<std::cell::RefCell<Option<Vec<DiffOp>>>> = Default::default();
+    {
+        let rc = raw_cell.clone();
+        similar::verif_hooks::install_cleanup_tracer(Some(Box::new(move |arm, _ptr, ops| {
+            if arm == "begin" && rc.borrow().is_none() {
+                *rc.borrow_mut() = Some(ops.to_vec());
+            }
+        })));
+    }
     let deadline = if c.fuel == -2 {
         None
     } else {
@@ -122,6 +133,30 @@ pub fn exec(c: &OCase, repair: bool) -> OResult {
             let ratio = get_diff_ratio(&ops, old.len(), new.len());
             (ops, ratio)
         }
+        "textdiff_ci" => {
+            // tokens of a user-defined DiffableStr type whose == ignores ASCII case; every token
+            // gets a random case, so equal tokens are rarely identical
+            let mut flip = (c.old.len() * 31 + c.new.len()) as u32;
+            let mut tok = |x: &u32| -> String {
+                flip = flip.wrapping_mul(1664525).wrapping_add(1013904223);
+                if flip & 0x10000 != 0 {
+                    format!("T{}\n", x)
+                } else {
+                    format!("t{}\n", x)
+                }
+            };
+            let old: Vec<String> = c.old[c.os..c.oe].iter().map(&mut tok).collect();
+            let new: Vec<String> = c.new[c.ns..c.ne].iter().map(&mut tok).collect();
+            let o: Vec<&crate::ci::Ci> = old.iter().map(|s| crate::ci::Ci::new(s.as_str())).collect();
+            let n: Vec<&crate::ci::Ci> = new.iter().map(|s| crate::ci::Ci::new(s.as_str())).collect();
+            let mut cfg = TextDiff::configure();
+            cfg.algorithm(c.alg);
+            if let Some(d) = deadline {
+                cfg.deadline(d);
+            }
+            let diff = cfg.diff_slices(&o, &n);
+            (diff.ops().to_vec(), diff.ratio())
+        }
         "textdiff" => {
             let old = token_strings(&c.old[c.os..c.oe]);
             let new = token_strings(&c.new[c.ns..c.ne]);
@@ -139,6 +174,8 @@ pub fn exec(c: &OCase, repair: bool) -> OResult {
     });
     let probes = if c.fuel >= -1 { rec::probes() } else { 0 };
     rec::remove_clock();
+    similar::verif_hooks::install_cleanup_tracer(None);
+    let raw = raw_cell.borrow_mut().take();
     similar::verif_hooks::set_swap_repair(false);
     let swaps = similar::verif_hooks::take_swap_count();
     match r {
@@ -147,12 +184,14 @@ pub fn exec(c: &OCase, repair: bool) -> OResult {
             ratio: Some(ratio),
             probes,
             swaps,
+            raw,
         },
         None => OResult {
             ops: None,
             ratio: None,
             probes,
             swaps,
+            raw,
         },
     }
 }
@@ -160,7 +199,7 @@ pub fn exec(c: &OCase, repair: bool) -> OResult {
 /// ops of entries that work on extracted slices are relative to the slice: shift them back
 fn base_shift(c: &OCase) -> (usize, usize) {
     match c.entry {
-        "slices" | "textdiff" | "slices_weakhash" | "slices_consthash" => (c.os, c.ns),
+        "slices" | "textdiff" | "textdiff_ci" | "slices_weakhash" | "slices_consthash" => (c.os, c.ns),
         _ => (0, 0),
     }
 }
@@ -221,6 +260,13 @@ pub fn record(c: &OCase, case: i64) -> Value {
         (Some(ops), Some(ratio)) => {
             v["panic"] = json!(false);
             v["ops"] = shifted_ops_json(ops, so, sn);
+            // what the compaction stage was handed (for the attribution of known finding KF-1);
+            // only for ordinary sizes
+            if let Some(raw) = &plain.raw {
+                if raw.len() <= 400 {
+                    v["raw"] = shifted_ops_json(raw, so, sn);
+                }
+            }
             // the same ops read through the public accessors (C11 observes the ops through them)
             let tagn = |t: similar::DiffTag| match t {
                 similar::DiffTag::Equal => 0,
@@ -292,6 +338,7 @@ pub fn from_json(v: &Value) -> OCase {
         "hetero" => "hetero",
         "alias" => "alias",
         "identify" => "identify",
+        "textdiff_ci" => "textdiff_ci",
         _ => "textdiff",
     };
     OCase {
@@ -356,8 +403,13 @@ pub fn drive_ops(a: &Args, out: &mut Out) {
     for _ in 0..a.num("nrand", nrand) {
         pairs.push(gen::random_pair(&mut rng, maxlen));
     }
-    for _ in 0..(if thorough { 600 } else { 60 }) {
-        pairs.push(gen::runny_ints(&mut rng));
+    for k in 0..(if thorough { 600 } else { 60 }) {
+        let (x, y) = gen::runny_ints(&mut rng);
+        if k % 10 == 0 {
+            // identical long inputs (more than 100 items)
+            pairs.push((x.clone(), x.clone()));
+        }
+        pairs.push((x, y));
     }
     for _ in 0..(if thorough { 1500 } else { 150 }) {
         pairs.push(gen::anchor_heavy(&mut rng));
@@ -550,6 +602,11 @@ pub fn drive_ops(a: &Args, out: &mut Out) {
                 let mut id = sub.clone();
                 id.entry = "identify";
                 emit_with_fuels(&id, out, &mut rng, 0);
+            }
+            if i % 6 == 4 || (x.len().max(y.len()) > 100 && alg == Algorithm::Myers) {
+                let mut ci = whole.clone();
+                ci.entry = "textdiff_ci";
+                emit_with_fuels(&ci, out, &mut rng, 0);
             }
             if i % 3 == 0 {
                 let mut buf = x.clone();
